@@ -185,6 +185,11 @@ class C01(core.Check):
                     toks += tree_tokens(x)
                     if len(trees) > 1 and i < len(trees) - 1 and rng.random() < 0.5:
                         toks.append(['T', rng.choice(['t', ' mid ', '&amp;'])])
+                # top-level text before the first / after the last root (makes the document multi-root), edge white space included
+                if rng.random() < 0.3:
+                    toks = [['T', rng.choice(['lead ', 'x', ' lead'])]] + toks
+                if rng.random() < 0.4:
+                    toks.append(['T', rng.choice([' tail  ', ' ', '\n', 'end', ' end'])])
                 # adjacent generator text tokens would merge in the source: keep them separate
                 clean = []
                 for tk in toks:
@@ -286,11 +291,17 @@ class C01(core.Check):
         if case['kind'] != 'api' and (p1.doctype or None) != (p2.doctype or None):
             return 'round trip of %r changed the doctype: %r -> %r' % (s1, p1.doctype, p2.doctype)
         a, b = norm_shape(orig, BIN), norm_shape(r2, BIN)
-        if multi or r2.tagName == 'xxxblank':
-            # whitespace following the doctype in a multi-root document is outside the domain
-            strip_ws = lambda sh: [sh[0], sh[1], sh[2], [x for x in sh[3] if not (isinstance(x, str) and not x.strip())]]
-            a2, b2 = strip_ws(a), strip_ws(b)
-            if a2 != b2 and a != b:
+        if case.get('doctype') and (multi or r2.tagName == 'xxxblank'):
+            # the white space that follows the doctype of a multi-root document is outside the domain: the leading white space of the
+            # first top-level text block is not compared (everything else is)
+            def drop_lead(sh):
+                bl = list(sh[3])
+                if bl and isinstance(bl[0], str):
+                    bl[0] = bl[0].lstrip()
+                    if not bl[0]:
+                        bl = bl[1:]
+                return [sh[0], sh[1], sh[2], bl]
+            if drop_lead(a) != drop_lead(b):
                 return 'round trip of %r changed the tree: %s -> %s' % (s1, json.dumps(a), json.dumps(b))
         elif a != b:
             return 'round trip of %r changed the tree: %s -> %s' % (s1, json.dumps(a), json.dumps(b))
